@@ -12,7 +12,8 @@ Import ListNotations.
 Open Scope string_scope.
 Open Scope N_scope.
 
-Record leaf := { lf_name : bytes; lf_desc : coldesc; lf_conv : option Z; lf_logical : option tv }.
+Record leaf := { lf_name : bytes; lf_desc : coldesc; lf_conv : option Z; lf_logical : option tv;
+                 lf_scale : option Z; lf_prec : option Z }.
 
 (* flat schema: root element with num_children = number of leaves, every leaf a primitive *)
 Definition leaf_of (s : selem) : rs leaf :=
@@ -31,8 +32,8 @@ Definition leaf_of (s : selem) : rs leaf :=
                     | _, _ => ROk 0
                     end) in
         match se_rep s with
-        | Some 0%Z => ROk {| lf_name := se_name s; lf_desc := {| cd_type := t; cd_tlen := tl; cd_maxdef := 0 |}; lf_conv := se_conv s; lf_logical := se_logical s |}
-        | Some 1%Z => ROk {| lf_name := se_name s; lf_desc := {| cd_type := t; cd_tlen := tl; cd_maxdef := 1 |}; lf_conv := se_conv s; lf_logical := se_logical s |}
+        | Some 0%Z => ROk {| lf_name := se_name s; lf_desc := {| cd_type := t; cd_tlen := tl; cd_maxdef := 0 |}; lf_conv := se_conv s; lf_logical := se_logical s; lf_scale := se_scale s; lf_prec := se_prec s |}
+        | Some 1%Z => ROk {| lf_name := se_name s; lf_desc := {| cd_type := t; cd_tlen := tl; cd_maxdef := 1 |}; lf_conv := se_conv s; lf_logical := se_logical s; lf_scale := se_scale s; lf_prec := se_prec s |}
         | Some 2%Z => RUns "repeated leaf (nested data)"
         | _ => RBad "schema: leaf without a valid repetition_type"
         end
